@@ -35,13 +35,9 @@ def handle (p : List Sexp) : String :=
     | some resp, some salt, some stored =>
       let impl := vnStr (validateNative sha1 resp salt stored.toList)
       let spec := b01 (validateNativeSpec sha1 resp salt stored.toList)
+      -- F-C40-a/b were repaired (`Gms.C40.native_impl_eq_spec`): there is no region any more
       if impl = spec then answer impl
-      else
-        let region :=
-          if shortResponse resp stored.toList then "native_short_response_oob"
-          else if longResponse resp then "native_long_response_accepted"
-          else "-"
-        answer impl spec region
+      else answer impl spec "-"
     | _, _, _ => answer "bad-case"
   | [.list [.atom "login", en, .list as, u, h, s, r]] =>
     match flag en, as.mapM parseAcct, sx u, sx h, s.bytes?, r.bytes? with
@@ -55,23 +51,9 @@ def handle (p : List Sexp) : String :=
         | some specO =>
           if implO = specO then answer impl
           else
-            let chosen := chooseImpl accts user host
-            let lenRegion :=
-              match chosen with
-              | some a =>
-                if !a.locked && shortResponse resp a.auth then "native_short_response_oob"
-                else if !a.locked && longResponse resp then "native_long_response_accepted"
-                else "-"
-              | none => "-"
-            let region :=
-              if matchOrderDiffers accts user host then
-                -- same verdict when the Spec's scramble check is applied to the account the code chose?
-                match chosen with
-                | some a =>
-                  if checkAcct (fun r s st => some (validateNativeSpec sha1 r s st)) a salt resp = implO then "match_order_by_insertion"
-                  else if lenRegion ≠ "-" then lenRegion else "match_order_by_insertion"
-                | none => "match_order_by_insertion"
-              else lenRegion
+            -- the scramble check is the Spec's (`Gms.C40.authNative_eq_spec_of_same_account`): the only listed
+            -- region left is the choice of the account
+            let region := if matchOrderDiffers accts user host then "match_order_by_insertion" else "-"
             answer impl (outStr specO) region
     | _, _, _, _, _, _ => answer "bad-case"
   | [.list [.atom "method", en, .list as, m, u, h]] =>
